@@ -20,6 +20,8 @@ pub struct WelfordOnline<T: Float, V> {
     mean: T,
     m2: T,
     count: usize,
+    // number of adjacent pairs of values in the window that differ (0 <=> the window is flat)
+    n_changes: usize,
 }
 
 impl<T, V> WelfordOnline<T, V>
@@ -37,6 +39,7 @@ where
             mean: T::zero(),
             m2: T::zero(),
             count: 0,
+            n_changes: 0,
         }
     }
 
@@ -86,13 +89,26 @@ where
         let Some(val) = self.view.last() else { return };
         debug_assert!(val.is_finite(), "value must be finite");
 
+        if self.q_vals.back().is_some_and(|back| *back != val) {
+            self.n_changes += 1;
+        }
         self.q_vals.push_back(val);
 
         if self.q_vals.len() > self.window_len {
             let old_val = self.q_vals.pop_front().unwrap();
+            if self.q_vals.front().is_some_and(|front| *front != old_val) {
+                self.n_changes -= 1;
+            }
             self.update_stats_remove(old_val);
         }
         self.update_stats_add(val);
+        if self.n_changes == 0 {
+            // A flat window has its value as mean and no spread at all. The add / remove updates above leave
+            // rounding residue of the values that left the window in `mean` and `m2`; without this reset a flat
+            // window after a volatile one had a std of ~1e-8 instead of 0 (Vst / Vsct then divide by it).
+            self.mean = val;
+            self.m2 = T::zero();
+        }
     }
 
     #[inline]
